@@ -472,9 +472,6 @@ def _dram_static():
     return DRAM_STATIC
 
 
-# which variant of Block._forward_wrap.fwd_block the code under test has (set by props/C06.py)
-WRAP_FIXED = [False]
-
 # primitives whose Procedure is built without a forwarding function (old-style rewrite passes)
 UNDEFINED_OK = {"add_unsafe_guard", "autofission", "autolift_alloc"}
 
@@ -592,7 +589,10 @@ def check_forward(ck, src_proc, dst_proc, chain_desc, replay, stats, cursors=Non
                             "forwarded to the carried-over statement `%s`, not `%s`" % (_s(o2), _s(o))
                     else:
                         stats["rebuilt"] = stats.get("rebuilt", 0) + 1
-                        if id(o) in new and count_obj(dst_proc._loopir_proc, o) == 1:
+                        if ("+" not in chain_desc and id(o) in new and count_obj(root, o) == 1
+                                and count_obj(dst_proc._loopir_proc, o) == 1):
+                            # (single primitive only: in a chain one primitive may duplicate a statement
+                            #  object and a later one rebuild one of the copies)
                             # the very object is carried over (exactly once) but the cursor went to a new node
                             key, what = "api:stmt:missed-carried-over:%s" % chain_desc, \
                                 "`%s` is carried over unchanged but its cursor forwards to the new statement `%s`" % (_s(o), _s(o2))
@@ -701,7 +701,7 @@ def replay_in_model(ck, src_proc, dst_proc, events, chain_desc, replay, stats, s
                          "cursor into the wrapped statements one level too high")
         return
     cursors = [c for c in I.enum_cursors(spec0)]
-    m = I.run_model([(spec0, edits, cursors)], fixed=WRAP_FIXED[0])[0]
+    m = I.run_model([(spec0, edits, cursors)])[0]
     key = (I.spec_sexp(spec0), [I.edit_sexp(e) for e in edits])
     tag = chain_desc.split("(")[0]
     ck.case(stream, key, nontrivial=any(e[0] != "nop" for e in edits), tag=tag,
